@@ -344,6 +344,37 @@ SCM_STRINGS = r"""
 (finish)
 """
 
+SCM_LOOKALIKE = r"""
+(set! space "look")
+(for-each (lambda (s)
+            (let ((y (string->symbol s)))
+              (check-datum y "lookalike" W3 same? same? (lambda () (->expr y)))))
+          (list %(names)s))
+(finish)
+"""
+
+
+def lookalike_names():
+    """names that differ from number / boolean syntax only in letter case, or sit next to it: every case variant"""
+    bases = ["+inf.0", "-inf.0", "+nan.0", "-nan.0", "+i", "-i", "+inf.0i", "-nan.0i", "1e3", "1e+3", "#t", "#f", "#true", "#false",
+             "+5i", "1+i", "1-2i", "inf.0", "nan.0", "+inf", "+inf.00", "+inf.0x", "+nan.0x", "#e1", "#x1f", "#b101", "1/2x", "0x1f", "1f3", "1d3", "1l3", "1s3"]
+    out = []
+    for b in bases:
+        letters = [i for i, c in enumerate(b) if c.isalpha()]
+        for mask in range(2 ** min(len(letters), 8)):
+            cs = list(b)
+            for k, i in enumerate(letters[:8]):
+                if mask >> k & 1:
+                    cs[i] = cs[i].upper()
+            out.append("".join(cs))
+    seen, uniq = set(), []
+    for x in out:
+        if x not in seen:
+            seen.add(x)
+            uniq.append(x)
+    return uniq
+
+
 SCM_NUMBERS = r"""
 (set! space "num")
 (define NS (list %(nums)s))
@@ -1101,6 +1132,37 @@ def hi_lo(b):
     return "%d %d" % (b >> 32, b & 0xffffffff)
 
 
+def num_expr(x):
+    """an expression that BUILDS the exact rational x from literals below 10^9 (Horner in base 10^9), so that no long digit string
+    passes through the reader on the way in: the reader is the thing under test"""
+    if isinstance(x, Fraction) and x.denominator != 1:
+        return "(/ %s %s)" % (num_expr(x.numerator), num_expr(x.denominator))
+    n = int(x)
+    if n < 0:
+        return "(- %s)" % num_expr(-n)
+    if n < 10 ** 9:
+        return str(n)
+    chunks = []
+    while n:
+        chunks.append(n % 10 ** 9)
+        n //= 10 ** 9
+    e = str(chunks[-1])
+    for c in reversed(chunks[:-1]):
+        e = "(+ (* %s 1000000000) %d)" % (e, c)
+    return e
+
+
+def digit_family(maxlen):
+    """decimal digit strings as such: two leading digits followed by zeros / by nines, every length: the reader's accumulation
+    loop (fixnum -> bignum hand-over) depends on the leading digits, which the power-of-two lattice does not vary"""
+    out = []
+    for ln in range(3, maxlen + 1):
+        for ab in range(10, 100):
+            out.append(ab * 10 ** (ln - 2))
+            out.append((ab + 1) * 10 ** (ln - 2) - 1)
+    return out
+
+
 def all_jobs(tier):
     jobs = []
     quick = tier == "quick"
@@ -1108,7 +1170,7 @@ def all_jobs(tier):
     L = nums.lattice(1 if quick else 2)
     R = nums.ratios(0 if quick else 1)
     big = nums.big_operands()
-    allnums = [x for x in L if x >= 0] + [r for r in R if r >= 0] + [abs(b) for b in big]
+    allnums = [x for x in L if x >= 0] + [r for r in R if r >= 0] + [abs(b) for b in big] + digit_family(26 if quick else 45)
     seen, uniq = set(), []
     for x in allnums:
         if x not in seen:
@@ -1119,6 +1181,9 @@ def all_jobs(tier):
         src = uniq if v == "opt" else uniq[::7]
         for lo in range(0, len(src), nchunk):
             jobs.append({"space": "num", "variant": v, "nums": src[lo:lo + nchunk], "extras": lo == 0, "size": 3 * len(src[lo:lo + nchunk])})
+    # --- symbols that look like numbers up to letter case
+    la = lookalike_names()
+    jobs.append({"space": "look", "variant": "opt", "names": la, "size": 2 * len(la)})
     # --- strings / symbols over the 20-character set
     maxlen = 3 if quick else 4
     for ln in range(0, maxlen + 1):
@@ -1165,7 +1230,9 @@ def job_source(job, trace=False):
         body = SCM_NUMBERS
         if not job["extras"]:
             body = body.split(';; complex grid')[0] + "(finish)\n"
-        return PRELUDE + body % {"nums": " ".join(nums.show(x) for x in job["nums"])}
+        return PRELUDE + body % {"nums": " ".join(num_expr(x) for x in job["nums"])}
+    if sp == "look":
+        return PRELUDE + SCM_LOOKALIKE % {"names": " ".join('"%s"' % n for n in job["names"])}
     if sp == "str":
         return PRELUDE + SCM_STRINGS % job
     if sp == "dbl":
@@ -1450,6 +1517,8 @@ def nontrivial_of(job):
             if cp >= 128 or not chr(cp).isalnum():
                 n += 3
         return n
+    if sp == "look":
+        return len(job["names"])
     if sp == "str":
         ln = job["len"]
         n = 0
